@@ -637,6 +637,12 @@ do_binding(struct zc_src *s)
 		}
 	}
 	n = uniq64(in, n);
+	if ((z = zif_open(s->path)) == NULL) {
+		/* reported by the exploration */
+		free(in);
+		return 0;
+	}
+	zif_close(z);
 	snprintf(fin, sizeof(fin), "%s/c12bind.%d", rundir, (int)getpid());
 	snprintf(fout, sizeof(fout), "%s.out", fin);
 
